@@ -43,29 +43,42 @@ Proof.
   - rewrite ieq_sym, E in H. cbn [orb] in H. exact (IH H).
 Qed.
 
+Lemma rget_map_first (V : ccol -> value) c : forall cols : list ccol,
+  existsb (ieq c) (map cc_name cols) = true ->
+  exists col, ieq (cc_name col) c = true /\ rget c (map (fun x => (cc_name x, V x)) cols) = V col.
+Proof.
+  induction cols as [|x cols IH]; cbn [map existsb]; [discriminate|].
+  intro H. unfold rget. cbn [find fst].
+  destruct (ieq (cc_name x) c) eqn:E.
+  - exists x. split; [exact E|reflexivity].
+  - rewrite ieq_sym, E in H. cbn [orb] in H. destruct (IH H) as (col & H1 & H2).
+    exists col. split; [exact H1|exact H2].
+Qed.
+
+Lemma existsb_ieq_congr a b l : ieq a b = true -> existsb (ieq a) l = existsb (ieq b) l.
+Proof.
+  intro H. induction l as [|x l IH]; cbn [existsb]; [reflexivity|].
+  rewrite IH. f_equal. now apply ieq_congr_l.
+Qed.
+
 (* every listed column that the destination table has carries the source value *)
 Theorem copy_preserves_column : forall dt cs r c,
   has_ccol c dt = true -> existsb (ieq c) cs = true ->
   rget c (inserted_row dt cs (map SelCol cs) r) = rget c r.
 Proof.
-  intros dt cs r c Hcol Hin. unfold inserted_row, has_ccol, imem, ccol_names in *.
-  rewrite map_map. cbn [select_value].
-  induction (ct_cols dt) as [|col cols IH]; cbn [map existsb] in *; [discriminate|].
-  unfold rget at 1. cbn [find fst].
-  destruct (ieq (cc_name col) c) eqn:E.
-  - cbn [snd].
-    assert (Hin' : existsb (ieq (cc_name col)) cs = true).
-    { rewrite <- Hin. clear -E. induction cs as [|x cs IH]; cbn [existsb]; [reflexivity|].
-      rewrite IH. f_equal. now apply ieq_congr_l. }
-    destruct (find_given (cc_name col) (fun c0 => rget c0 r) cs Hin') as (c' & Hc' & Hf).
-    assert (Hm : map (select_value r) (map SelCol cs) = map (fun c0 => rget c0 r) cs).
-    { rewrite map_map. reflexivity. }
-    rewrite Hm, Hf. cbn [snd]. apply rget_ieq. rewrite ieq_sym. eapply ieq_trans; [|exact Hc']. now rewrite ieq_sym.
-  - rewrite ieq_sym, E in Hcol. cbn [orb] in Hcol. fold (rget c (map (fun c0 : ccol =>
-      (cc_name c0, match find (fun kv : string * value => ieq (fst kv) (cc_name c0))
-                           (combine cs (map (select_value r) (map SelCol cs))) with
-                   | Some kv => snd kv | None => col_default_value c0 end)) cols)).
-    exact (IH Hcol).
+  intros dt cs r c Hcol Hin. unfold inserted_row.
+  assert (Hm : map (select_value r) (map SelCol cs) = map (fun c0 => rget c0 r) cs)
+    by (rewrite map_map; reflexivity).
+  rewrite Hm. clear Hm.
+  unfold has_ccol, imem, ccol_names in Hcol.
+  destruct (rget_map_first
+              (fun x => match find (fun kv : string * value => ieq (fst kv) (cc_name x))
+                                   (combine cs (map (fun c0 => rget c0 r) cs)) with
+                        | Some kv => snd kv | None => col_default_value x end) c (ct_cols dt) Hcol)
+    as (col & Hc & ->).
+  assert (Hin' : existsb (ieq (cc_name col)) cs = true) by (rewrite <- Hin; now apply existsb_ieq_congr).
+  destruct (find_given (cc_name col) (fun c0 => rget c0 r) cs Hin') as (c' & Hc' & ->).
+  cbn [snd]. apply rget_ieq. rewrite ieq_sym. eapply ieq_trans; [|exact Hc']. now rewrite ieq_sym.
 Qed.
 
 (* ---------- row effect of each of the four rebuild statements (foreign_keys OFF) ---------- *)
@@ -189,7 +202,7 @@ Proof.
       assert (ieq (fst kv) n = false).
       { destruct (ieq (fst kv) n) eqn:E; [|reflexivity]. rewrite <- Ena. symmetry.
         eapply ieq_trans; [rewrite ieq_sym; exact E|exact Ea]. }
-      rewrite H in IH |- *. exact IH.
+      rewrite H. exact IH.
     + destruct (ieq (fst kv) n) eqn:En.
       * assert (ieq n b = false).
         { destruct (ieq n b) eqn:E; [|reflexivity]. rewrite <- H1. symmetry. eapply ieq_trans; eauto. }
@@ -198,6 +211,9 @@ Proof.
         rewrite H, H0. reflexivity.
       * exact IH.
 Qed.
+
+Lemma find_app_none {A} (p : A -> bool) (l1 l2 : list A) : find p l1 = None -> find p (l1 ++ l2) = find p l2.
+Proof. induction l1 as [|x l IH]; cbn [app find]; [reflexivity|]. destruct (p x); [discriminate|exact IH]. Qed.
 
 (* ---------- the theorem ---------- *)
 (* CREATE t_temp(cols') ; INSERT INTO t_temp (cs) SELECT cs FROM t ; DROP TABLE t ; ALTER TABLE t_temp RENAME TO t
@@ -226,9 +242,10 @@ Proof.
   injection Hrun as <-.
   apply exec_create_rows in E1 as (R1 & T1 & C1).
   assert (Hfind : find_ctable temp (db_cat d1) = Some dt).
-  { rewrite C1. unfold find_ctable. cbn [cat_tables]. rewrite find_app.
+  { rewrite C1. unfold find_ctable. cbn [cat_tables].
     unfold name_taken in T1. apply Bool.orb_false_iff in T1 as [T1 _]. unfold has_ctable, find_ctable in T1.
-    destruct (find (fun t0 => ieq (ct_name t0) temp) (cat_tables (db_cat d))); [discriminate|].
+    destruct (find (fun t0 => ieq (ct_name t0) temp) (cat_tables (db_cat d))) eqn:F; [discriminate|].
+    rewrite (find_app_none _ _ _ F).
     cbn [find]. unfold dt, table_of_create. cbn [ct_name]. now rewrite ieq_refl. }
   destruct (exec_insert_rows _ _ _ _ _ _ E2 Hfind) as (R2 & C2 & Hcols).
   apply exec_drop_rows in E3 as R3. apply exec_rename_rows in E4 as R4.
@@ -250,10 +267,8 @@ Proof.
     clear -Hc Hcols. unfold has_ccol, imem in *.
     induction cs as [|x cs IH]; cbn [existsb] in Hc; [discriminate|].
     destruct (ieq c x) eqn:E.
-    + specialize (Hcols x (or_introl eq_refl)). rewrite <- Hcols.
-      clear -E. induction (ccol_names dt) as [|y l IH]; cbn [existsb]; [reflexivity|].
-      rewrite IH. f_equal. now apply ieq_congr_l.
-    + apply IH; [exact Hc|]. intros y Hy. apply Hcols. now right.
+    + specialize (Hcols x (or_introl eq_refl)). rewrite <- Hcols. now apply existsb_ieq_congr.
+    + apply IH; [intros y Hy; apply Hcols; now right|exact Hc].
   - intros o Hot Hotemp.
     rewrite R4, rows_of_rename by exact Hkey3. rewrite Hot, Hotemp.
     rewrite R3, rows_of_drop, Hot. rewrite R2, rows_of_set, Hotemp.
